@@ -61,8 +61,26 @@ def mag(x):
 
 
 # ------------------------------------------------------------------------ adapters
-def make_adapter(spec):
+def make_adapter(spec, alt=False):
+    """alt: the other documented way of passing the constructor arguments (positional where the default form uses
+    keywords and vice versa)"""
     k = spec["kind"]
+    if alt:
+        if k == "scale":
+            return abase.Scale(scale=float(spec["f"]))
+        if k == "step":
+            return atime.StepTime(float(Fraction(spec["p"])) if not isinstance(spec["p"], float) else spec["p"])
+        if k == "avg":
+            p = spec.get("p")
+            return ainteg.AvgOverTime(None if p is None else float(Fraction(p)))
+        if k == "sum":
+            p = spec.get("p")
+            return ainteg.SumOverTime(None if p is None else float(Fraction(p)), bool(spec.get("per_time", True)),
+                                      td(spec.get("init", 0)))
+        if k == "delay_fixed":
+            return atime.DelayFixed(delay=td(spec["d"]))
+        if k == "delay_pull":
+            return atime.DelayToPull(int(spec["n"]), td(spec.get("x", 0)))
     if k == "scale":
         return abase.Scale(float(spec["f"]))
     if k == "callback":
@@ -137,14 +155,24 @@ class SimComp(TimeComponent):
 
     def _initialize(self):
         s = self.spec
+        by_info = bool(self.world.sc.get("api", 0) & 1)      # slots described by Info objects instead of keywords
         for i in s["inputs"]:
-            if i.get("info_at_init", True):
+            if i.get("info_at_init", True) and by_info:
+                self.inputs.add(name=i["name"], info=Info(time=self.time, grid=NoGrid(), units=i.get("units")),
+                                static=bool(i.get("static")))
+            elif i.get("info_at_init", True):
                 self.inputs.add(name=i["name"], time=self.time, grid=NoGrid(), units=i.get("units"),
                                 static=bool(i.get("static")))
             else:
                 self.inputs.add(name=i["name"], static=bool(i.get("static")))
         for o in s["outputs"]:
-            if o.get("info_at_init", True):
+            if o.get("static"):
+                # a time-stepped component may own static outputs next to its dynamic ones (a parameter map, say):
+                # published once while connecting, never again
+                self.outputs.add(name=o["name"], time=self.time, grid=NoGrid(), units=o.get("units", ""), static=True)
+            elif o.get("info_at_init", True) and by_info:
+                self.outputs.add(name=o["name"], info=Info(time=self.time, grid=NoGrid(), units=o.get("units", "")))
+            elif o.get("info_at_init", True):
                 self.outputs.add(name=o["name"], time=self.time, grid=NoGrid(), units=o.get("units", ""))
             else:
                 self.outputs.add(name=o["name"])
@@ -156,7 +184,7 @@ class SimComp(TimeComponent):
         ex = {i["name"]: Info(time=self.time, grid=NoGrid(), units=i.get("units"))
               for i in s["inputs"] if not i.get("info_at_init", True)}
         pi = {o["name"]: Info(time=self.time, grid=NoGrid(), units=o.get("units", ""))
-              for o in s["outputs"] if not o.get("info_at_init", True)}
+              for o in s["outputs"] if not o.get("info_at_init", True) and not o.get("static")}
         pd = {o["name"]: self.out_value(oi, 0) for oi, o in enumerate(s["outputs"])}
         dep = s.get("init_dep")
         if dep:
@@ -188,6 +216,8 @@ class SimComp(TimeComponent):
 
     def _push_all(self, t):
         for oi, o in enumerate(self.spec["outputs"]):
+            if o.get("static"):
+                continue
             if self.k + 1 in o.get("nopush", ()):
                 self.world.fault("F1_omission")
                 continue
@@ -320,25 +350,39 @@ def make_wsum(spec, world):
 
 
 class SimStatic(Component):
-    """Component without time step whose outputs are static (one publication, valid for every time)."""
+    """Component without time step whose outputs are static (one publication, valid for every time).  It may have
+    inputs: they are pulled once while connecting and the static publication is derived from those initial values
+    (a parameter field computed from another model's initial state)."""
 
     def __init__(self, spec, world):
         super().__init__()
         self.spec = spec
         self.world = world
         self._name = spec["name"]
-        self.pulls = {}
+        self.pulls = {i["name"]: [] for i in spec["inputs"]}
+        self._generated = False
 
     def _initialize(self):
         # the composition start is declared (an unset time would be taken from whichever consumer exchanges
         # first, and two outputs could end up with different 'starting times')
         t0 = dt(self.world.t0) if self.world.t0 is not None else None
+        for i in self.spec["inputs"]:
+            self.inputs.add(name=i["name"], time=t0, grid=NoGrid(), units=i.get("units"))
         for o in self.spec["outputs"]:
             self.outputs.add(name=o["name"], time=t0, grid=NoGrid(), units=o.get("units", ""), static=True)
-        self.create_connector()
+        self.create_connector(pull_data=[i["name"] for i in self.spec["inputs"]])
 
     def _connect(self, start_time):
-        self.try_connect(start_time, push_data={o["name"]: float(o["base"]) for o in self.spec["outputs"]})
+        push = {}
+        if not self._generated and self.connector.all_data_pulled:
+            add = 0.0
+            for i in self.spec["inputs"]:
+                d = self.connector.in_data[i["name"]]
+                self.pulls[i["name"]].append(("init", tick(start_time), mag(d)))
+                add += mag(d)
+            push = {o["name"]: float(o["base"]) + add for o in self.spec["outputs"]}
+            self._generated = True
+        self.try_connect(start_time, push_data=push)
 
     def _validate(self):
         pass
@@ -389,19 +433,24 @@ def make_dbgcons(spec, world):
 def make_cbcomp(spec, world):
     """REAL finam.components.CallbackComponent (inputs -> outputs, pulls everything initially)"""
     from finam.components import CallbackComponent
-    state = {"init": True}
+    state = {"init": True, "n": 0}
 
     def cb(inp, time):
         first = state["init"]
         state["init"] = False
         k = _k_of(spec, time)
+        # a model with internal state: what it publishes depends on how often it has been evaluated (once while
+        # connecting, once per step - then the count equals the step number)
+        n = state["n"]
+        state["n"] += 1
         if inp is not None:
             for name, d in inp.items():
                 comp.pulls[name].append(("init" if first else k - 1, world.t0 if first else tick(time), mag(d)))
-        return {o["name"]: float(o["base"] + k * o.get("inc", 1)) for o in spec["outputs"]}
+        return {o["name"]: float(o["base"] + n * o.get("inc", 1)) for o in spec["outputs"]}
     comp = CallbackComponent(inputs={i["name"]: Info(time=None, grid=NoGrid(), units=i.get("units")) for i in spec["inputs"]},
                              outputs={o["name"]: Info(time=None, grid=NoGrid(), units=o.get("units", "")) for o in spec["outputs"]},
-                             callback=cb, start=dt(spec["start"]), step=td(spec["steps"][0]))
+                             callback=cb, start=dt(spec["start"]), step=td(spec["steps"][0]),
+                             initial_pull=spec.get("cb_initial_pull", True))
     comp.with_name(spec["name"])
     comp.pulls = {i["name"]: [] for i in spec["inputs"]}
     return comp
@@ -473,24 +522,33 @@ class World:
                 return adapter_for(ln["shared_with"], pi)
             if (li, pi) not in self.adapters:
                 a = ln["chain"][pi]
-                ad = make_adapter(a)
+                ad = make_adapter(a, alt=bool(sc.get("api", 0) & 4))
                 ad.with_name(f"L{li}a{pi}_{a['kind']}")
                 self.adapters[(li, pi)] = ad
                 self.labels[id(ad)] = f"L{li}.a{pi}"
             return self.adapters[(li, pi)]
 
+        short = bool(sc.get("api", 0) & 2)      # comp["slot"] and .chain() instead of comp.outputs["slot"] and >>
         for li in order:
             ln = sc["links"][li]
             src = self.comps[ln["src"][0]]
-            cur = src.outputs[sc["components"][ln["src"][0]]["outputs"][ln["src"][1]]["name"]]
+            oname = sc["components"][ln["src"][0]]["outputs"][ln["src"][1]]["name"]
+            cur = src[oname] if short else src.outputs[oname]
             for pi, a in enumerate(ln["chain"]):
                 ad = adapter_for(li, pi)
                 if ad.source is None:
-                    cur >> ad
+                    if short:
+                        cur.chain(ad)
+                    else:
+                        cur >> ad
                 cur = ad
             if ln.get("dst") is not None:
                 dst = self.comps[ln["dst"][0]]
-                cur >> dst.inputs[sc["components"][ln["dst"][0]]["inputs"][ln["dst"][1]]["name"]]
+                iname = sc["components"][ln["dst"][0]]["inputs"][ln["dst"][1]]["name"]
+                if short:
+                    cur.chain(dst[iname])
+                else:
+                    cur >> dst.inputs[iname]
         return self
 
     def run(self):
